@@ -22,6 +22,10 @@
 //    f=1 (optional head entry): "fine" run -- EVERY Mutex lock in muscle (object pools, socket pool, ..) is a decision point, so
 //       threads also interleave inside StartInternalThread / CreateConnectedSocketPair etc.  The Coq LTS has no such steps, so
 //       only `k FINE` is printed (by both sides) and the oracle alone judges the run (search for a failing input).
+//    f=2: "free" run -- no scheduler at all: the owner program (n must be 1) runs in a real thread against the real internal
+//       thread, blocking in the real select() / condition variable (the code path the scheduler replaces elsewhere).  Only
+//       `k FREE` is printed; the oracle checks order, exactly-once and that every blocking receive eventually returns its
+//       Message (a 30 s watchdog reports a hang).  Supporting evidence for the runtime residue, not part of the tie.
 //    sch: explicit decisions ("2" run thread 2, "2!" fire thread 2's timeout), entries that are not enabled are skipped;
 //    beyond them: seed=N random policy, seed=- non-preemptive policy.  Internal threads get the ids n, n+1, .. as created.
 // modes:  (default) cases on stdin -> traces;   --explore <max_preemptions> <max_runs>: for each stdin case print every
@@ -37,6 +41,9 @@
 #include <map>
 #include <sstream>
 #include <memory>
+#include <mutex>
+#include <thread>
+#include <signal.h>
 
 #define private public
 #define protected public
@@ -54,7 +61,7 @@ enum { W_POLL = 0, W_NEVER, W_TIMED };
 struct Op { int kind; long arg; bool null; };     // arg: message id / wake kind / wait flag
 
 struct Case {
-   bool sockets; bool evd; bool fine; int n; bool haveSeed; uint64_t seed; std::vector<Choice> sched;
+   bool sockets; bool evd; bool fine; bool freeRun; int n; bool haveSeed; uint64_t seed; std::vector<Choice> sched;
    std::vector<std::vector<Op> > prog;
    std::string head, body;
 };
@@ -80,14 +87,14 @@ static bool parse_case(const std::string & line, Case & c)
    const size_t bar = line.find('|');
    if (bar == std::string::npos) return false;
    c.head = line.substr(0, bar); c.body = line.substr(bar+1);
-   c.sockets = true; c.evd = false; c.fine = false; c.n = 0; c.haveSeed = false; c.seed = 0; c.sched.clear();
+   c.sockets = true; c.evd = false; c.fine = false; c.freeRun = false; c.n = 0; c.haveSeed = false; c.seed = 0; c.sched.clear();
    std::vector<std::string> hs = split(c.head, ',');
    for (size_t i=0; i<hs.size(); i++)
    {
       const std::string & h = hs[i];
       if (h.compare(0, 2, "m=") == 0) {if (h == "m=s") c.sockets = true; else if (h == "m=w") c.sockets = false; else return false;}
       else if (h.compare(0, 2, "k=") == 0) {if (h == "k=d") c.evd = false; else if (h == "k=e") c.evd = true; else return false;}
-      else if (h.compare(0, 2, "f=") == 0) {if (h == "f=1") c.fine = true; else if (h == "f=0") c.fine = false; else return false;}
+      else if (h.compare(0, 2, "f=") == 0) {if (h == "f=1") c.fine = true; else if (h == "f=2") c.freeRun = true; else if (h != "f=0") return false;}
       else if (h.compare(0, 2, "n=") == 0) c.n = atoi(h.c_str()+2);
       else if (h.compare(0, 5, "seed=") == 0) {if (h.size() > 5 && h[5] != '-') {c.haveSeed = true; c.seed = strtoull(h.c_str()+5, NULL, 10);}}
       else if (h.compare(0, 4, "sch=") == 0)
@@ -129,6 +136,7 @@ static bool parse_case(const std::string & line, Case & c)
    if (c.n < 1) c.n = 1;
    if (c.n > 16) return false;
    if (c.evd && !c.sockets) return false;     // there is no wake-up socket to select() on
+   if (c.freeRun && c.n != 1) return false;   // a free run has one sender per direction, so that the expected order is known
    c.prog.assign(c.n, std::vector<Op>());
    for (size_t i=0; i<toks.size(); i++) c.prog[toks[i].first].push_back(toks[i].second);
    return true;
@@ -156,7 +164,10 @@ static long id_of(const MessageRef & m) {return m() ? (long) m()->what : -1;}
 // ---------------------------------------------------------------------------------------------------------------------
 struct Run;
 static Run * g_run = NULL;
-static bool g_fine = false;    // the current case is a "fine" run (every Mutex lock is a decision point)
+static bool g_fine = false;
+static bool g_free = false;    // the current case is a "free" run (no scheduler)
+static std::mutex g_freeMutex; // guards the oracle's bookkeeping in a free run
+static long g_curCase = 0;    // the current case is a "fine" run (every Mutex lock is a decision point)
 
 class TestThread : public Thread
 {
@@ -282,6 +293,7 @@ static void observe_queue(int ch)
 
 static void oracle_received(int ch, long id)
 {
+   std::unique_lock<std::mutex> lk(g_freeMutex, std::defer_lock); if (g_free) lk.lock();
    Run & r = *g_run;
    r.recvCount[ch][id]++;
    if (id >= 0 && r.recvCount[ch][id] > r.sentCount[ch][id]) {std::ostringstream o; o << "Message " << id << " was received on " << CH[ch] << " more often than it was sent"; oracle_fail(o.str());}
@@ -299,7 +311,11 @@ status_t TestThread :: MessageReceivedFromOwner(const MessageRef & ref, uint32 n
    react((long) ref()->what, replies, quit);
    for (size_t i=0; i<replies.size(); i++)
    {
-      g_run->sentCount[1][replies[i]]++;
+      {
+         std::unique_lock<std::mutex> lk(g_freeMutex, std::defer_lock); if (g_free) lk.lock();
+         g_run->sentCount[1][replies[i]]++;
+         if (g_free) g_run->order[1].push_back(replies[i]);    // the only sender of replies in a free run: this is the queue order
+      }
       (void) SendMessageToOwner((replies[i] < 0) ? MessageRef() : GetMessageFromPool((uint32) replies[i]));
    }
    return quit ? B_ERROR("quit") : B_NO_ERROR;
@@ -314,6 +330,12 @@ void TestThread :: InternalThreadEntry()
       if (_threadData[MESSAGE_THREAD_INTERNAL]._messageSocket.GetFileDescriptor() < 0) break;
       // select() on GetInternalThreadWakeupSocket(): under the controlled scheduler the blocking happens inside the scheduler
       if (muscle_verif_hook_ref()) (void) muscle_verif_hook_ref()(MUSCLE_VERIF_SEM_WAIT, &_threadData[MESSAGE_THREAD_INTERNAL], 0);
+      else
+      {
+         SocketMultiplexer sm;
+         (void) sm.RegisterSocketForReadReady(_threadData[MESSAGE_THREAD_INTERNAL]._messageSocket.GetFileDescriptor());
+         if (sm.WaitForEvents().IsError()) break;
+      }
       bool quit = false;
       MessageRef ref; uint32 numLeft = 0;
       while(WaitForNextMessageFromOwner(ref, 0, &numLeft).IsOK())
@@ -355,7 +377,7 @@ static void on_event(const Event & e)
 
 static void thread_body(int me)
 {
-   install_wrapper();
+   if (!g_free) install_wrapper();
    Run & r = *g_run;
    TestThread & tt = *r.tt;
    const std::vector<Op> & prog = r.c->prog[me];
@@ -370,7 +392,11 @@ static void thread_body(int me)
          {
             const int ch = (op.kind == OP_SI) ? 0 : 1;
             const long id = op.null ? -1 : op.arg;
-            r.sentCount[ch][id]++;
+            {
+               std::unique_lock<std::mutex> lk(g_freeMutex, std::defer_lock); if (g_free) lk.lock();
+               r.sentCount[ch][id]++;
+               if (g_free) r.order[ch].push_back(id);
+            }
             MessageRef m = op.null ? MessageRef() : GetMessageFromPool((uint32) op.arg);
             const status_t ret = (ch == 0) ? tt.SendMessageToInternalThread(m) : tt.SendMessageToOwner(m);
             res = ret.IsOK() ? "ok" : (std::string("err:") + ret());
@@ -381,7 +407,9 @@ static void thread_body(int me)
          {
             MessageRef m; uint32 left = 12345;
             const uint64 when = (op.arg == W_POLL) ? 0 : ((op.arg == W_NEVER) ? MUSCLE_TIME_NEVER : far);
-            const status_t ret = tt.GetNextReplyFromInternalThread(m, when, &left);
+            status_t ret = tt.GetNextReplyFromInternalThread(m, when, &left);
+            // free run: a blocking receive may legitimately come back empty-handed (a late signal byte); "always wakes" = it gets its Message eventually
+            while(g_free && op.arg == W_NEVER && ret == B_TIMED_OUT) ret = tt.GetNextReplyFromInternalThread(m, when, &left);
             if (ret.IsOK()) {char b[48]; snprintf(b, sizeof(b), "m%s/%u", id_text(m).c_str(), (unsigned) left); res = b; oracle_received(1, id_of(m));}
             else if (ret == B_TIMED_OUT) res = "to";
             else if (ret == B_BAD_OBJECT) res = "bo";
@@ -396,7 +424,12 @@ static void thread_body(int me)
             break;
          }
          case OP_SHUTDOWN:
-            if (tt.IsInternalThreadRunning()) g_run->sentCount[0][-1]++;    // it is about to queue a NULL Message
+            if (tt.IsInternalThreadRunning())     // it is about to queue a NULL Message
+            {
+               std::unique_lock<std::mutex> lk(g_freeMutex, std::defer_lock); if (g_free) lk.lock();
+               g_run->sentCount[0][-1]++;
+               if (g_free) g_run->order[0].push_back(-1);
+            }
             tt.ShutdownInternalThread(op.arg != 0);
             res = "v";
             break;
@@ -411,9 +444,47 @@ static void thread_body(int me)
             res = "v";
             break;
       }
-      Scheduler::Note(std::string("=") + res + dump_state());
+      if (!g_free) Scheduler::Note(std::string("=") + res + dump_state());
    }
-   refresh_readable();
+   if (!g_free) refresh_readable();
+}
+
+// ---- free runs: no scheduler, the real blocking primitives
+static void on_watchdog(int)
+{
+   char buf[160];
+   const int n = snprintf(buf, sizeof(buf), "%ld ORACLE FAIL free run hung for 30 s: a blocked thread was never woken, or shutdown did not complete\n", g_curCase);
+   if (n > 0) {ssize_t w = write(1, buf, (size_t) n); (void) w;}
+   _exit(3);
+}
+
+static void run_case_free(long k, const Case & c)
+{
+   printf("%ld FREE\n", k); fflush(stdout);
+   Run * r = new Run;
+   g_run = r; g_fine = false; g_free = true; g_curCase = k;
+   r->c = &c;
+   r->tt = new TestThread(c.sockets, c.evd);
+   for (int ch=0; ch<2; ch++) {r->snap[ch].clear(); r->order[ch].clear(); r->nrecv[ch] = 0; r->sentCount[ch].clear(); r->recvCount[ch].clear();}
+   r->oracle.clear();
+   signal(SIGALRM, on_watchdog);
+   alarm(30);
+   std::thread owner([]{thread_body(0);});
+   owner.join();
+   if (r->tt->IsInternalThreadRunning()) r->tt->ShutdownInternalThread(true);   // (the generated programs end with it anyway)
+   alarm(0);
+   // exactly once: whatever was sent has been received or is still queued
+   for (int ch=0; ch<2; ch++)
+   {
+      std::map<long, int> acc = r->recvCount[ch];
+      const std::vector<long> left = queue_ids(ch);
+      for (size_t i=0; i<left.size(); i++) acc[left[i]]++;
+      if (acc != r->sentCount[ch]) {std::ostringstream o; o << "free run: at the end the Messages received plus those still queued on " << CH[ch] << " are not the Messages sent"; oracle_fail(o.str());}
+   }
+   for (size_t i=0; i<r->oracle.size(); i++) printf("%ld ORACLE FAIL %s\n", k, r->oracle[i].c_str());
+   fflush(stdout);
+   delete r->tt; delete r;
+   g_run = NULL; g_free = false;
 }
 
 static std::string choice_text(const Choice & c) {char b[24]; snprintf(b, sizeof(b), "%d%s", c.tid, c.timeout ? "!" : ""); return b;}
@@ -586,7 +657,7 @@ int main(int argc, char ** argv)
       while(len > 0 && (line[len-1] == '\n' || line[len-1] == '\r')) line[--len] = 0;
       Case c;
       if (!parse_case(line, c)) {if (maxPre < 0) {printf("%ld BADCASE\n", k); fflush(stdout);} k++; continue;}
-      if (maxPre >= 0) explore_case(c, maxPre, maxRuns); else run_case(k, c);
+      if (maxPre >= 0) explore_case(c, maxPre, maxRuns); else if (c.freeRun) run_case_free(k, c); else run_case(k, c);
       k++;
    }
    fflush(stdout);
